@@ -367,6 +367,12 @@ class Path:
         self.conds, self.env, self.value, self.how, self.line, self.effects = conds, env, value, how, line, effects
 
 
+class _Marker:
+    def __init__(self, kind):
+        self.kind = kind
+        self.lineno = 0
+
+
 class PEval:
     """symbolic evaluation of a function body.  effects: ('store', name, key, value) for `name[key] = value`,
     ('attr', dotted, None, value) for attribute stores, ('call', '.meth', None, ('tuple', (recv, args..))) for statement calls"""
@@ -377,6 +383,9 @@ class PEval:
         self.paths = []
         self.maxpaths = 600
         self.loopctx = ()
+        self.unroll_const = False        # True: `for v in <literal list of <= 8 constants>` is unrolled (break / continue honoured)
+        self.record = set()              # call names ('.to_csv', 'f:open') also recorded as effects when their value is assigned
+        self.inline = {}                 # name -> FunctionDef: `x = name(args)` / `return name(args)` fork over the callee's paths
 
     def run(self, fdef, env=None, stmts=None):
         self.paths = []
@@ -386,6 +395,35 @@ class PEval:
 
     def ex(self, node, env):
         return self.b.build(node, env)
+
+    def _callee_paths(self, call, env):
+        """paths of an inlinable callee at a call with plain positional / keyword arguments, or None"""
+        if not (isinstance(call, ast.Call) and isinstance(call.func, ast.Name) and call.func.id in self.inline):
+            return None
+        fdef = self.inline[call.func.id]
+        a = fdef.args
+        if a.vararg or a.kwarg or a.posonlyargs or any(isinstance(x, ast.Starred) for x in call.args) or any(k.arg is None for k in call.keywords):
+            return None
+        names = [x.arg for x in a.args]
+        if len(call.args) > len(names):
+            return None
+        cenv = {}
+        for nm, d in zip(names[len(names) - len(a.defaults):], a.defaults):
+            cenv[nm] = self.ex(d, {})
+        for nm, d in zip([x.arg for x in a.kwonlyargs], a.kw_defaults):
+            if d is not None:
+                cenv[nm] = self.ex(d, {})
+        for nm, x in zip(names, call.args):
+            cenv[nm] = self.ex(x, env)
+        for k in call.keywords:
+            cenv[k.arg] = self.ex(k.value, env)
+        if any(nm not in cenv for nm in names):
+            return None
+        sub = PEval(self.b.resolve)
+        sub.b = self.b
+        sub.unroll_const, sub.maxpaths, sub.ignore, sub.record = self.unroll_const, self.maxpaths, self.ignore, self.record
+        sub.inline = {k: v for k, v in self.inline.items() if k != call.func.id}
+        return sub.run(fdef, cenv)
 
     def bind(self, t, v, env, effects, conds, line):
         if isinstance(t, ast.Name):
@@ -446,8 +484,26 @@ class PEval:
                 continue
             if isinstance(s, (ast.Import, ast.ImportFrom, ast.Pass, ast.Global, ast.Nonlocal, ast.Assert, ast.Delete)):
                 continue
+            if isinstance(s, (ast.Assign, ast.Return)) and self.inline and s.value is not None:
+                cps = self._callee_paths(s.value, env)
+                if cps is not None:
+                    for cp in cps:
+                        c2, e2 = conds + list(cp.conds), list(effects) + list(cp.effects)
+                        if cp.how not in ("return", "end"):
+                            self.paths.append(Path(c2, env, ('raise',), 'raise', line, e2))
+                            continue
+                        env2 = dict(env)
+                        if isinstance(s, ast.Return):
+                            self.paths.append(Path(c2, env2, cp.value, 'return', line, e2))
+                            continue
+                        for t in s.targets:
+                            self.bind(t, cp.value, env2, e2, c2, line)
+                        self._walk(stmts[i + 1:], env2, c2, e2)
+                    return
             if isinstance(s, ast.Assign):
                 v = self.ex(s.value, env)
+                if self.record and isinstance(v, tuple) and v[0] == 'call' and v[1] in self.record:
+                    effects.append(Effect('call', v[1], None, v, conds, line, self.loopctx))
                 for t in s.targets:
                     self.bind(t, v, env, effects, conds, line)
                 continue
@@ -474,9 +530,25 @@ class PEval:
             if isinstance(s, ast.Raise):
                 self.paths.append(Path(conds, env, ('raise',), 'raise', line, effects))
                 return
+            if isinstance(s, _Marker):
+                continue
             if isinstance(s, (ast.Break, ast.Continue)):
+                rest = stmts[i + 1:]
+                want = "endloop" if isinstance(s, ast.Break) else "endit"
+                pos = [k for k, x in enumerate(rest) if isinstance(x, _Marker) and x.kind == want]
+                if pos:
+                    return self._walk(rest[pos[0] + 1:], env, conds, effects)
                 self.paths.append(Path(conds, env, None, type(s).__name__.lower(), line, effects))
                 return
+            if isinstance(s, ast.For) and self.unroll_const and isinstance(s.iter, (ast.List, ast.Tuple)) and len(s.iter.elts) <= 8 and \
+                    all(isinstance(x, ast.Constant) for x in s.iter.elts) and not s.orelse:
+                flat = []
+                for x in s.iter.elts:
+                    flat.append(ast.copy_location(ast.Assign(targets=[s.target], value=x), s))
+                    flat += list(s.body)
+                    flat.append(_Marker("endit"))
+                flat.append(_Marker("endloop"))
+                return self._walk(flat + stmts[i + 1:], env, conds, effects)
             if isinstance(s, (ast.For, ast.While)):
                 self._loop(s, env, conds, effects)
                 continue
@@ -492,7 +564,7 @@ class PEval:
                 env[s.name] = ('sym', 'def:' + s.name)
                 continue
             raise Undecided(f"statement {type(s).__name__}")
-        self.paths.append(Path(conds, env, ('sym', 'None'), 'end', stmts[-1].lineno if stmts else 0, effects))
+        self.paths.append(Path(conds, env, ('sym', 'None'), 'end', getattr(stmts[-1], "lineno", 0) if stmts else 0, effects))
 
     def _loop(self, s, env, conds, effects):
         stored = {n.id for n in ast.walk(s) if isinstance(n, ast.Name) and isinstance(n.ctx, ast.Store)}
